@@ -357,7 +357,10 @@ class Interp:
             ty = body[5:].split(",")[0]
             if src.startswith("getelementptr") or src.startswith("@"):
                 v = self.val(src, p)
-                p.env[dst] = ("fnptr", v)
+                if isinstance(v, tuple) and v[0] == "global" and ("G", v[1]) in p.mem:
+                    p.env[dst] = p.mem[("G", v[1])][0]          # a file-level variable this path has stored to
+                else:
+                    p.env[dst] = ("fnptr", v)
                 return None
             a = self.val(src, p)
             if isinstance(a, Ptr) and isinstance(a.off, Aff) and a.off.const and (a.region, a.off.b) in p.mem:
@@ -374,6 +377,9 @@ class Interp:
                 raise AnalysisBroken("absint: unmodelled store '%s'" % rhs)
             v, a = self.val(mm.group(2), p), self.val(mm.group(3), p)
             w, _ = type_size_align(mm.group(1), self.structs)
+            if isinstance(a, tuple) and a and a[0] == "global":
+                p.mem[("G", a[1])] = (v, w)                     # store to a file-level variable (e.g. a cached hook)
+                return None
             if not isinstance(a, Ptr):
                 raise AnalysisBroken("absint: store through non-pointer")
             p.stores.append((a, v, w))
